@@ -108,6 +108,12 @@ def _configure(obj, vi, quiet, order):
     else:
         obj.set_verbosity(LEVELS[vi])
         obj.set_quiet(quiet)
+    if order % 2 == 1 and hasattr(obj, "set_formatter"):
+        # replacing the formatter or the stream (by the ones in use) has nothing to do with quiet mode and verbosity
+        fmt = obj.formatter if hasattr(obj, "formatter") else obj.output.formatter
+        obj.set_formatter(fmt)
+        if hasattr(obj, "set_stream") and hasattr(obj, "stream"):
+            obj.set_stream(obj.stream)
     return obj.is_quiet() == quiet and (not hasattr(obj, "verbosity") or obj.verbosity == LEVELS[vi])
 
 
